@@ -36,8 +36,9 @@ PARTIAL = ['C02_parse_unparse_partial / C02_items_simulation_partial / C02_white
            'its opening character, the two delimiter characters are not text directly in the body of a delimited argument, '
            'at most 8*(length of the call token)-4 absent arguments per call (the fuel of the model), (e5) a mandatory argument '
            'written as one token: a character, a control sequence (its own arguments are not parsed), a specials sequence, '
-           '(e6) a comment that ends with the input, a paragraph break followed by indentation. '
-           'NOT covered by any theorem (only by the differential correspondence and the structure oracle): ' + """a paragraph break written directly after a control word / comment (whose post-space is then cut at the first newline), comments before an argument, a delimited argument written directly (not inside braces) in the body of another delimited argument, verbatim (\\verb, verbatim environments, verbatim argument kind)"""]
+           '(e6) a comment that ends with the input, a paragraph break followed by indentation, (e7) verbatim: \\verb<c>text<c> and '
+           'the verbatim environments (verbatim; lstlisting with its optional argument written or absent). '
+           'NOT covered by any theorem (only by the differential correspondence and the structure oracle): ' + """a paragraph break written directly after a control word / comment (whose post-space is then cut at the first newline), comments before an argument, a delimited argument written directly (not inside braces) in the body of another delimited argument, the verbatim ARGUMENT kind (v arguments of custom signatures; \\verb and the verbatim environments are covered)"""]
 REFUTED = []
 CASE_TIMEOUT = 10.0
 case_from_desc = None
